@@ -30,3 +30,14 @@ package definition
 //@ assigns Failed, RanLen, RanAt, LastRunFailed
 //@ ensures [trace-extended] RanLen == old(RanLen) + 1 && RanAt == store(old(RanAt), old(RanLen), self)
 //@ ensures [failure-recorded] LastRunFailed == (result != nil) && Failed == (result != nil)
+
+// Ghost trace of shutdown (C14): CurTid is the identity of the running goroutine (forked threads are numbered by the
+// global fork counter); CloseCalls[t] / CloseTarget[t]: how often thread t invoked Close, and on which closer.
+//@ ghost var CurTid int
+//@ ghost var CloseCalls map[int]int
+//@ ghost var CloseTarget map[int]CloserComponent
+
+//@ method (CloserComponent).Close
+//@ property C14
+//@ assigns CloseCalls, CloseTarget
+//@ ensures [close-traced] CloseCalls == store(old(CloseCalls), CurTid, old(CloseCalls[CurTid]) + 1) && CloseTarget == store(old(CloseTarget), CurTid, self)
